@@ -120,6 +120,33 @@ def crosscheck(dumps, timeout=30):
     return res
 
 
+def crosshair_post(prop, functions, tier, rc):
+    """thorough tier: run the CrossHair twins of this property's integer kernels and attach the verdicts to the evidence.
+    A kernel refuted by CrossHair while pathsym passed (or a blind vacuity guard) is a harness problem (exit 2)."""
+    if tier != 'thorough' or os.environ.get('VERIF_CROSSCHECK', '1') == '0':
+        return rc
+    try:
+        p = subprocess.run([sys.executable, os.path.join(VERIF, 'tools', 'crosshair_check.py'), '60'], capture_output=True, text=True, timeout=3000)
+        res = json.loads(p.stdout.strip().splitlines()[-1])
+    except Exception as e:
+        res = {'error': str(e)[:200], 'functions': {}}
+    mine = {f: res['functions'].get(f, {'verdict': 'missing'}) for f in functions}
+    path = os.path.join(VERIF, 'evidence', '%s.json' % prop)
+    ev = json.load(open(path))
+    ev['coverage']['crosshair'] = {'tool': res.get('tool'), 'per_condition_timeout_s': res.get('per_condition_timeout_s'), 'kernels': mine,
+                                   'vacuity_guard_ok': res.get('vacuity_guard_ok'), 'wall_s': res.get('wall_s'),
+                                   'note': 'secondary engine on integer-only kernels; only "confirmed" counts, anything else but "refuted" is inconclusive'}
+    bad = [f for f, v in mine.items() if v['verdict'] == 'refuted']
+    if bad or not res.get('vacuity_guard_ok'):
+        ev['coverage'].setdefault('harness_problems', []).append('CrossHair disagrees or its vacuity guard is blind: %s' % (bad or res.get('error')))
+        json.dump(ev, open(path, 'w'), indent=1)
+        print('HARNESS-PROBLEM: CrossHair cross-check: refuted %s / guard %s' % (bad, res.get('vacuity_guard_ok')))
+        return rc if rc == 1 else 2
+    json.dump(ev, open(path, 'w'), indent=1)
+    print('CrossHair cross-check: %s' % {f: v['verdict'] for f, v in mine.items()})
+    return rc
+
+
 def _jsonable(x):
     try:
         json.dumps(x); return x
